@@ -35,6 +35,7 @@ static const double EPS = 2.220446049250313e-16;
 static const LD PI_L = 3.14159265358979323846264338327950288L;
 static const double NA = 1.234e30; // TEST
 static inline bool isNA(double v) { return !(v < 1.e30) || std::isnan(v); }
+static void dbg(const std::string& m) { if (getenv("C18_DIAG")) diag("C18DBG " + m); }
 
 // ------------------------------------------------------------------ Gaussian law (oracle) --
 static LD pnormL(LD x) { return 0.5L * erfcl(-x / sqrtl(2.L)); }
@@ -378,13 +379,28 @@ static void runAnamH(const AnamHCase& c, Ctx& ctx)
       ctx.fail(pre + "bounds-undefined", fmt("a reported bound is undefined: py[%g,%g] pz[%g,%g] ay[%g,%g] az[%g,%g]", pymin, pymax, pzmin, pzmax, aymin, aymax, azmin, azmax));
       return;
     }
+  if (azmin > azmax || aymin > aymax || pzmin > pzmax || pymin > pymax)
+  {
+    ctx.fail(pre + "interval-inverted", fmt("a reported interval has min > max: py[%g,%g] pz[%g,%g] ay[%g,%g] az[%g,%g] nbpoly=%d", pymin, pymax, pzmin, pzmax, aymin, aymax, azmin, azmax, c.nbpoly));
+    return;
+  }
   // the interval on which the transform is claimed valid: practical interval, within the absolute one
+  // (values outside the absolute interval are clamped by design when flagBound is set)
   const double ylo = std::max(pymin, aymin), yhi = std::min(pymax, aymax);
   const double zlo = std::max(pzmin, azmin), zhi = std::min(pzmax, azmax);
-  if (!(yhi - ylo > 0.05) || !(zhi > zlo))
+  if (!(yhi - ylo > 0.35) || !(zhi > zlo))
   {
     ctx.label("empty-interval");
-    ctx.inconclusive("reported-interval-empty");
+    dbg(fmt("empty: py[%g,%g] pz[%g,%g] ay[%g,%g] az[%g,%g] nb=%d fb=%d n=%d", pymin, pymax, pzmin, pzmax, aymin, aymax, azmin, azmax, c.nbpoly, c.flagBound, n));
+    ctx.inconclusive("reported-interval-narrower-than-3-grid-steps");
+    return;
+  }
+  if (!(ylo <= 0. && 0. <= yhi) && !c.flagBound)
+  {
+    // without bounds the inverse searches the raw polynomial from y = 0: outside the practical interval
+    // it is not claimed to be monotone, so the branch reached is not determined
+    ctx.label("zero-outside-py:bound-off");
+    ctx.inconclusive("bound-off-and-zero-outside-practical-interval");
     return;
   }
   if (!(ylo <= 0. && 0. <= yhi)) ctx.label("zero-outside-py");
@@ -418,12 +434,23 @@ static void runAnamH(const AnamHCase& c, Ctx& ctx)
   }
 
   // (2) raw -> gaussian -> raw
+  // The method locates the ends of the monotone stretch on a grid of step YPAS = 0.1 only: the turning
+  // point may lie anywhere inside the end cells, so the claim is tested one grid step inside.
   int checked = 0, flat = 0;
+  const double YPAS = 0.1;
+  const double yl = ylo + YPAS, yh = yhi - YPAS;
+  const double zl = std::max(zlo, f.fwd(yl)), zh = std::min(zhi, f.fwd(yh));
   const double mz = std::max(1e-6 * (zhi - zlo), 2 * dzmax);
-  if (zhi - zlo > 4 * mz)
+  // excuse for a mismatch: the transform is not monotone at sub-grid resolution between the two points
+  auto subgrid = [&](double ya, double yb) {
+    if (ya > yb) std::swap(ya, yb);
+    if (ya < ylo - 1e-6 || yb > yhi + 1e-6) return false; // left the reported interval: no excuse
+    return !fineMonotone(f, std::max(ylo, ya - YPAS), std::min(yhi, yb + YPAS), rnd);
+  };
+  if (zh - zl > 4 * mz)
   {
     VectorDouble zp;
-    for (double t : c.t) zp.push_back(zlo + mz + t * (zhi - zlo - 2 * mz));
+    for (double t : c.t) zp.push_back(zl + mz + t * (zh - zl - 2 * mz));
     ctx.at("AnamContinuous::rawToGaussianVector");
     VectorDouble yq = anam.rawToGaussianVector(zp);
     ctx.at("AnamContinuous::gaussianToRawVector");
@@ -435,7 +462,7 @@ static void runAnamH(const AnamHCase& c, Ctx& ctx)
       checked++;
       if (!(std::fabs(zq[k] - zp[k]) <= tol))
       {
-        if (!fineMonotone(f, std::max(-10., yq[k] - 0.2), std::min(10., yq[k] + 0.2), rnd)) { ctx.inconclusive("subgrid-nonmonotone"); return; }
+        if (subgrid(yq[k], yq[k])) { dbg(fmt("subgrid z: z=%g y=%g zback=%g tol=%g y[%g,%g] z[%g,%g] ay[%g,%g] az[%g,%g] nb=%d fb=%d", zp[k], yq[k], zq[k], tol, ylo, yhi, zlo, zhi, aymin, aymax, azmin, azmax, c.nbpoly, c.flagBound)); ctx.inconclusive("subgrid-nonmonotone"); return; }
         ctx.fail(pre + "z-roundtrip", fmt("z=%.17g -> y=%.17g -> z=%.17g: |diff|=%g > tol=%g (dzmax=%g) interval z[%g,%g] y[%g,%g] nbpoly=%d", zp[k], yq[k], zq[k], std::fabs(zq[k] - zp[k]), tol, dzmax, zlo, zhi, ylo, yhi, c.nbpoly));
         return;
       }
@@ -446,7 +473,7 @@ static void runAnamH(const AnamHCase& c, Ctx& ctx)
   {
     VectorDouble yp;
     const double my = 1e-6;
-    for (double t : c.t) yp.push_back(ylo + my + t * (yhi - ylo - 2 * my));
+    for (double t : c.t) yp.push_back(yl + my + t * (yh - yl - 2 * my));
     VectorDouble zq = anam.gaussianToRawVector(yp);
     ctx.at("AnamContinuous::rawToGaussianVector");
     VectorDouble yq = anam.rawToGaussianVector(zq);
@@ -462,8 +489,7 @@ static void runAnamH(const AnamHCase& c, Ctx& ctx)
       checked++;
       if (!(std::fabs(yq[k] - yp[k]) <= eta + 2e-7))
       {
-        double lo = std::max(-10., std::min(yp[k], yq[k]) - 0.2), hi = std::min(10., std::max(yp[k], yq[k]) + 0.2);
-        if (std::fabs(yq[k]) <= 10.5 && !fineMonotone(f, lo, hi, rnd)) { ctx.inconclusive("subgrid-nonmonotone"); return; }
+        if (subgrid(yp[k], yq[k])) { dbg(fmt("subgrid y: y=%g z=%g yback=%g eta=%g y[%g,%g] z[%g,%g] ay[%g,%g] az[%g,%g] nb=%d fb=%d", yp[k], zq[k], yq[k], eta, ylo, yhi, zlo, zhi, aymin, aymax, azmin, azmax, c.nbpoly, c.flagBound)); ctx.inconclusive("subgrid-nonmonotone"); return; }
         ctx.fail(pre + "y-roundtrip", fmt("y=%.17g -> z=%.17g -> y=%.17g: |diff|=%g > eta=%g interval y[%g,%g] z[%g,%g] ay[%g,%g] nbpoly=%d", yp[k], zq[k], yq[k], std::fabs(yq[k] - yp[k]), eta, ylo, yhi, zlo, zhi, aymin, aymax, c.nbpoly));
         return;
       }
@@ -488,13 +514,13 @@ static void runAnamH(const AnamHCase& c, Ctx& ctx)
       double z = c.s.z[(size_t)i];
       if (!act || isNA(z)) continue;
       if (isNA(yv[i]) || isNA(zv[i])) { ctx.fail(pre + "db-undefined", fmt("active defined sample %d is transformed to NA", i)); return; }
-      if (!(z > zlo + mz && z < zhi - mz)) continue;
+      if (!(z > zl + mz && z < zh - mz)) continue;
       double slope = std::max(0., f.fwd(yv[i] + delta) - f.fwd(yv[i] - delta));
       double tol = dzmax + slope + rnd;
       checked++;
       if (!(std::fabs(zv[i] - z) <= tol))
       {
-        if (!fineMonotone(f, std::max(-10., yv[i] - 0.2), std::min(10., yv[i] + 0.2), rnd)) { ctx.inconclusive("subgrid-nonmonotone"); return; }
+        if (subgrid(yv[i], yv[i])) { ctx.inconclusive("subgrid-nonmonotone"); return; }
         ctx.fail(pre + "db-z-roundtrip", fmt("sample %d z=%.17g -> y=%.17g -> z=%.17g tol=%g", i, z, yv[i], zv[i], tol));
         return;
       }
